@@ -129,8 +129,8 @@ theorem direct_sim :
     ∀ (b : Fun.Term), pureD p gc b = true → ∀ (env : Fun.Env) (K : Fun.Stack) (ty : Core.Ty)
       (st : CompileState) (B : Core.Term) (st' : CompileState) (m : Nat) (ρ0 ρ : CEnv) (n : Nat),
       compile b ty st = .ok (B, st') → StOK q st' → TermNames b st →
-      EnvRel G q m (fv b) env ρ0 → BoundOn (tfvTerm B []) ρ0 → AgreeOn (tfvTerm B []) ρ0 ρ →
-      (∃ v j, 1 ≤ j ∧ FSteps p (.eval b env K) (.ret v K) [] j ∧ PVal q B ρ n (VRel G q m v)) ∨
+      EnvRel G p q m (fv b) env ρ0 → BoundOn (tfvTerm B []) ρ0 → AgreeOn (tfvTerm B []) ρ0 ρ →
+      (∃ v j, 1 ≤ j ∧ FSteps p (.eval b env K) (.ret v K) [] j ∧ PVal q B ρ n (VRel G p q m v)) ∨
       (∃ j s1 w, FSteps p (.eval b env K) s1 [] j ∧ Fun.step p s1 = .stuck w ∧ Bad w) ∨
       (∃ j s1 w r', FSteps p (.eval b env K) s1 [] j ∧ Fun.step p s1 = .stuck w ∧
         ResMatch (.stuck w) r' ∧ B.isVar = false ∧ PFault q B ρ n r' ∧ PFault q B ρ (n + 1) r')
@@ -173,8 +173,8 @@ theorem direct_sim :
             (fun y hy => by simp [binderNames, hy]) (fs_stepRel.refl st)
           have tnb : TermNames b st1 := htn.of_sub (fun y hy => by simp [fv, hy])
             (fun y hy => by simp [binderNames, hy]) fa
-          have hea : EnvRel G q m (fv a) env ρ0 := he.sub fun y hy => by simp [fv, hy]
-          have heb : EnvRel G q m (fv b) env ρ0 := he.sub fun y hy => by simp [fv, hy]
+          have hea : EnvRel G p q m (fv a) env ρ0 := he.sub fun y hy => by simp [fv, hy]
+          have heb : EnvRel G p q m (fv b) env ρ0 := he.sub fun y hy => by simp [fv, hy]
           have hbdA : BoundOn (tfvTerm A []) ρ0 := hbd.mono fun y hy => mem_tfv_op.2 (.inl hy)
           have hbdB : BoundOn (tfvTerm B []) ρ0 := hbd.mono fun y hy => mem_tfv_op.2 (.inr hy)
           have hagA : AgreeOn (tfvTerm A []) ρ0 ρ := hag.mono fun y hy => mem_tfv_op.2 (.inl hy)
@@ -193,7 +193,7 @@ theorem direct_sim :
               .one (by rw [step_opR, har])
             have := fj.trans s1
             simp only [List.append_nil] at this
-            have hev : ∀ n0, PEval q (.op A (compileOp o) B) ρ n0 (VRel G q m (.int r)) :=
+            have hev : ∀ n0, PEval q (.op A (compileOp o) B) ρ n0 (VRel G p q m (.int r)) :=
               fun n0 => (peval_op (hA n0) (hB n0) har).imp fun V h => by
                 rw [show V = .int r from h]; exact .int _ _
             exact .inl ⟨.int r, _, by omega, this,
